@@ -211,7 +211,10 @@ namespace _fmt_basics {
 			bool plus_becomes_space = false, bool use_capitals = false,
 			locale_options locale_opts = {}, const char *prefix = nullptr) {
 		if(number < 0) {
-			auto absv = ~static_cast<typename std::make_unsigned_t<T>>(number) + 1;
+			// The arithmetic promotes types narrower than int; convert back so that the
+			// magnitude stays an unsigned value of T's width.
+			using U = typename std::make_unsigned_t<T>;
+			auto absv = static_cast<U>(~static_cast<U>(number) + 1);
 			print_digits(sink, absv, true, radix, width, precision, padding,
 					left_justify, group_thousands, always_sign, plus_becomes_space, use_capitals,
 					locale_opts, prefix);
